@@ -157,10 +157,13 @@ def convert(input_image_stream, output_image_stream):
                 break
             a = ord(iotostr(f.read(1)))
             for jj in range(b):
-                dump(a)
-                y = y - 1
                 if y <= 0:
                     break
+                dump(a)
+                y = y - 1
+        if y > 0:
+            debug("compressed data ended {} bytes early".format(y))
+            sys.exit(1)
     else:
         for jj in range(y):
             dump(ord(iotostr(f.read(1))))
